@@ -49,6 +49,8 @@ def extract_fgraph(spec):
             graph = graph.with_arguments(*inputs.values())
         try:
             opsets = graph.get_opsets()
+        except (AttributeError, TypeError, NameError, ImportError) as e:
+            return None, ("unobservable", f"build_main: {type(e).__name__}: {e}"), []
         except Exception as e:  # noqa: BLE001
             return None, ("skip", f"build_main: {type(e).__name__}"), []
         opset_req = list(opsets.items())
@@ -88,6 +90,8 @@ def extract_fgraph(spec):
 
         try:
             fg = graph_json(graph)
+        except (AttributeError, TypeError, NameError, ImportError, KeyError) as e:
+            return None, ("unobservable", f"extract: {type(e).__name__}: {e}"), []
         except Exception as e:  # noqa: BLE001
             return None, ("skip", f"extract: {type(e).__name__}: {e}"), []
         try:
@@ -264,6 +268,17 @@ def judge(spec, rng):
 
 
 def case_worker(task):
+    """Never raises: an exception of the machinery becomes a per-case 'crash' record."""
+    try:
+        return _case_worker(task)
+    except BaseException as e:  # noqa: BLE001
+        import traceback
+
+        return {"crash": f"{type(e).__name__}: {e}", "trace": traceback.format_exc()[-800:], "mode": task[2],
+                "status": "crash", "spec": None}
+
+
+def _case_worker(task):
     seed, idx, mode = task
     rng = random.Random(f"c14:{seed}:{idx}")
     with warnings.catch_warnings():
@@ -291,8 +306,19 @@ def case_worker(task):
             try:
                 r["fg"], r["real"], r["imports"] = extract_fgraph(spec)
             except Exception as e:  # noqa: BLE001
-                r["fg"], r["real"], r["imports"] = None, ("skip", f"{type(e).__name__}: {e}"), []
+                r["fg"], r["real"], r["imports"] = None, ("unobservable", f"{type(e).__name__}: {e}"), []
         return r
+
+
+def _calls_in_bodies(stmts, inside):
+    for st in stmts:
+        if st[0] == "call" and inside:
+            return True
+        if st[0] == "if" and (_calls_in_bodies(st[2]["stmts"], True) or _calls_in_bodies(st[3]["stmts"], True)):
+            return True
+        if st[0] == "loop" and _calls_in_bodies(st[3]["stmts"], True):
+            return True
+    return False
 
 
 HAND_SPECS = [
@@ -355,15 +381,25 @@ def run(ck: core.Check):
     tasks = ([(ck.seed, i, "oracle") for i in range(n_oracle)]
              + [(ck.seed, 10**6 + i, "collect") for i in range(n_collect)]
              + [(ck.seed, 2 * 10**6 + i, "sem") for i in range(n_sem)])
-    ctx = mp.get_context("fork")
-    with ctx.Pool(min(14, mp.cpu_count())) as pool:
-        results = pool.map(case_worker, tasks, chunksize=8)
+    results = L.robust_map(case_worker, tasks, min(14, mp.cpu_count()), core.WORK)
     rng = ck.rng
     for hs in HAND_SPECS:
         r = {"mode": "collect", "spec": hs, "stats": L.spec_stats(hs)}
         r.update(judge(hs, rng))
-        r["fg"], r["real"], r["imports"] = extract_fgraph(hs)
+        try:
+            r["fg"], r["real"], r["imports"] = extract_fgraph(hs)
+        except Exception as e:  # noqa: BLE001
+            r["fg"], r["real"], r["imports"] = None, ("unobservable", f"{type(e).__name__}: {e}"), []
         results.append(r)
+    crashes = [r for r in results if r.get("crash")]
+    if crashes:
+        ck.broken("correspondence", "C14 generated-program worker failed",
+                  f"{len(crashes)} cases; first: {crashes[0]['crash']} {crashes[0].get('trace', '')[-400:]}")
+    results = [r for r in results if not r.get("crash")]
+    unobs = [r for r in results if r["mode"] == "collect" and r.get("real") and r["real"][0] == "unobservable"]
+    if unobs:
+        ck.broken("correspondence", "C14 function collection not observable (real Builder/Function internals changed?)",
+                  f"{len(unobs)} cases; first: {unobs[0]['real'][1][:300]}")
 
     # ---- oracle verdicts
     dist = {"returned": 0, "raised": {}, "with_calls": 0, "calls_in_bodies": 0, "nested_functions": 0,
@@ -375,6 +411,7 @@ def run(ck: core.Check):
         spec = r["spec"]
         s = r["stats"]
         dist["with_calls"] += int(s["call"] > 0)
+        dist["calls_in_bodies"] += int(_calls_in_bodies(spec["stmts"], False))
         dist["nested_functions"] += int(any(st[0] == "call" for f in spec["funcs"] for st in f["body"]["stmts"]))
         if r["status"] == "err":
             cls = r["err"].split(":")[0]
@@ -395,11 +432,12 @@ def run(ck: core.Check):
 
     if drv is not None:
         # ---- (a) collection correspondence
-        col = [r for r in results if r["mode"] == "collect" and r.get("fg") is not None and r["real"][0] != "skip"]
+        col = [r for r in results if r["mode"] == "collect" and r.get("fg") is not None
+               and r["real"][0] not in ("skip", "unobservable")]
         outs = drv.ask_many("C14", [{"k": "collect", "g": r["fg"]} for r in col])
         mism = 0
         cst = {"cases": len(col), "agree_functions": 0, "agree_error": 0,
-               "skipped": sum(1 for r in results if r["mode"] == "collect" and (r.get("fg") is None or r["real"][0] == "skip"))}
+               "skipped": sum(1 for r in results if r["mode"] == "collect" and (r.get("fg") is None or r["real"][0] in ("skip", "unobservable")))}
         for r, o in zip(col, outs):
             real = r["real"]
             if real[0] == "ok":
